@@ -134,3 +134,35 @@ Proof.
   intros d' [R'|R']; [rewrite <- (rfc_text_functional _ _ _ R1 R')|rewrite <- (rfc_text_functional _ _ _ R2 R')];
     apply to_serde_json_w_rfc; assumption.
 Qed.
+
+(* ---------------------------------------------------------------- L5: the number classification, stated by VALUE *)
+(* sj_num_of above is written out from the property text ("each number as the same u64, i64 or f64") and happens to be the
+   same case analysis as Serde.snum_of_i64 on signed integers.  Independently of both: a number that is an integer (either
+   integer variant, int_of_num) is PosInt of that integer when it is non-negative -- whichever variant held it -- and NegInt of
+   it when negative; a float is that float.  This specification has exactly one solution, sj_num_of. *)
+Definition int_of_num (n : num) : option Z :=
+  match n with NInt z => Some z | NUInt u => Some (Z.of_N u) | NFloat _ => None end.
+Definition same_number (n : num) (s : snum) : Prop :=
+  match s with
+  | SPos u => int_of_num n = Some (Z.of_N u)
+  | SNeg z => int_of_num n = Some z /\ (z < 0)%Z
+  | SFloat b => n = NFloat b
+  end.
+Theorem sj_num_of_same_number n : same_number n (sj_num_of n).
+Proof.
+  destruct n as [z|u|b]; cbn [sj_num_of same_number int_of_num]; try reflexivity.
+  destruct (z <? 0)%Z eqn:E; cbn [same_number int_of_num].
+  - split; [reflexivity|apply Z.ltb_lt; exact E].
+  - apply Z.ltb_ge in E. rewrite Z2N.id by exact E. reflexivity.
+Qed.
+Theorem same_number_unique n s : same_number n s -> s = sj_num_of n.
+Proof.
+  destruct s as [u|z|b]; cbn [same_number]; destruct n as [z'|u'|b']; cbn [int_of_num sj_num_of]; try discriminate.
+  - intros H. injection H as ->. replace (Z.of_N u <? 0)%Z with false by (symmetry; apply Z.ltb_ge; apply N2Z.is_nonneg).
+    rewrite N2Z.id. reflexivity.
+  - intros H. injection H as H. apply N2Z.inj in H. subst. reflexivity.
+  - intros [H L]. injection H as ->. apply Z.ltb_lt in L. rewrite L. reflexivity.
+  - intros [H L]. injection H as <-. pose proof (N2Z.is_nonneg u'). exfalso. apply (Z.lt_irrefl 0). apply (Z.le_lt_trans _ _ _ H L).
+  - intros [H _]. discriminate H.
+  - intros H. injection H as ->. reflexivity.
+Qed.
